@@ -1,6 +1,6 @@
 (* C16 -- the statements exported to Properties_C16.v, in self-contained form. *)
 From Coq Require Import List NArith Bool Arith Lia.
-From Gatery Require Import StreamDefs StreamSpec StreamCompose StreamStages StreamHold StreamPacket StreamMeta StreamChain StreamLive StreamRefute.
+From Gatery Require Import StreamDefs StreamSpec StreamCompose StreamStages StreamHold StreamPacket StreamMeta StreamRs StreamChain StreamLive StreamRefute.
 Import ListNotations.
 
 (* ------------------------------------------------------------------ per stage *)
@@ -208,3 +208,34 @@ Lemma unpack_digit_view_l : forall f r l, unpack r (map (xmap f) l) = map (xmap 
 Proof. exact unpack_map. Qed.
 Lemma pack_digit_view_l : forall f r l, pack r (map (xmap f) l) = map (xmap f) (pack r l).
 Proof. exact pack_map. Qed.
+
+(* ------------------------------------------------------------------ streams without Valid (Rs / S) *)
+Lemma rs_flag_is_inside_packet_l : forall w f, rs_flags f w = inpkt f w.
+Proof. exact rs_flag_spec. Qed.
+
+Lemma rs_valid_is_inside_or_sop_l : forall w,
+  map (fun p => rs_valid (fst p) (fst (fst (snd p)))) (combine (rs_flags false w) w) =
+  map (fun p => fst p || fst (fst (snd p))) (combine (inpkt false w) w).
+Proof. exact rs_valid_spec. Qed.
+
+Lemma rs_stage_sees_specified_valid_l : forall S rcs,
+  map (fun c => bvalid (c_in c)) (rsCycles S rcs) =
+  map (fun p => fst p || r_sop (snd p))
+      (combine (inpkt false (map (fun p => (r_sop (fst p), r_eop (fst p), e_rin (snd p)))
+                                 (combine rcs (trace S (rsCycles S rcs))))) rcs).
+Proof. intros S rcs. apply rsCycles_valid. Qed.
+
+Lemma rs_reduceWidth_transfers_l : forall r rcs, 1 <= r ->
+  let cs := rsCycles (reduceS r) rcs in
+  holdW (inW (trace (reduceS r) cs)) ->
+  exists pend, Tout (trace (reduceS r) cs) = unpack r (Tin (trace (reduceS r) cs)) ++ pend /\ length pend < r.
+Proof. intros r rcs H cs HE. apply reduce_transfers_eq; assumption. Qed.
+
+Lemma rs_chain_transfers_l : forall d rcs c, wfd d ->
+  let cs := rsCycles (denote d) rcs in
+  stalls_ok d (cs ++ [c]) -> holdW (inW (trace (denote d) (cs ++ [c]))) ->
+  prefix (Tout (trace (denote d) cs) ++ offout (evAt (denote d) (after (denote d) cs) c))
+         (fn d (Tin (trace (denote d) cs) ++ offin (evAt (denote d) (after (denote d) cs) c))) /\
+  length (fn d (Tin (trace (denote d) (cs ++ [c])))) <= length (Tout (trace (denote d) (cs ++ [c]))) + capd d /\
+  holdW (outW (trace (denote d) (cs ++ [c]))).
+Proof. intros d rcs c W cs. apply chain_transfers_conformant_l, W. Qed.
